@@ -244,6 +244,9 @@ func runC10(c *Ctx) {
 	corpusUDP(c)
 	r := c.R
 	srcs := []net.IP{{10, 1, 2, 3}, {10, 1, 2, 4}, net.ParseIP("2001:db8::7"), net.ParseIP("2001:db8::8"), net.ParseIP("::ffff:10.1.2.3")}
+	for _, a := range nearMappedV6 {
+		srcs = append(srcs, net.ParseIP(a))
+	}
 	body := func(uc *udpCase, act uint32, cid []byte) {
 		var p []byte
 		switch act {
@@ -335,9 +338,9 @@ func runC10(c *Ctx) {
 func runC11U(c *Ctx) {
 	corpusUDP(c)
 	r := c.R
-	srcs := []net.IP{{10, 1, 2, 3}, net.ParseIP("2001:db8::7"), net.ParseIP("::ffff:10.1.2.3"), {0, 0, 0, 0}}
+	srcs := []net.IP{{10, 1, 2, 3}, net.ParseIP("2001:db8::7"), net.ParseIP("::ffff:10.1.2.3"), {0, 0, 0, 0}, net.ParseIP(nearMappedV6[0]), net.ParseIP(nearMappedV6[2])}
 	f4 := [][]byte{{0, 0, 0, 0}, {9, 9, 9, 9}, {10, 1, 2, 3}, {255, 255, 255, 255}, {0, 0, 0, 1}}
-	f16 := [][]byte{make([]byte, 16), net.ParseIP("2001:db8::99"), net.ParseIP("::ffff:9.9.9.9"), net.ParseIP("::1"), net.ParseIP("::ffff:0.0.0.0")}
+	f16 := [][]byte{make([]byte, 16), net.ParseIP("2001:db8::99"), net.ParseIP("::ffff:9.9.9.9"), net.ParseIP("::1"), net.ParseIP("::ffff:0.0.0.0"), net.ParseIP(nearMappedV6[0]), net.ParseIP(nearMappedV6[1]), net.ParseIP(nearMappedV6[3])}
 	for rep := 0; rep < 1+c.N/200; rep++ {
 		for _, src := range srcs {
 			for _, spoof := range []bool{false, true} {
